@@ -394,7 +394,7 @@ func mergeAdj(p []byte) []byte { return bytes.ReplaceAll(p, []byte("›‹"), ni
 func outputOracles(fin []byte) []string {
 	var orc []string
 	if e := wflErr(fin); e != "" {
-		orc = append(orc, "C01:output not well-formed/line-safe: "+e)
+		orc = append(orc, wfTag(e)+"output not well-formed/line-safe: "+e)
 	} else if e := perLineErr(fin, realRedact, realStrip); e != "" {
 		orc = append(orc, "C03:"+e)
 	}
